@@ -26,7 +26,8 @@ inductive Fx
   | rng (key : Addr)                     -- reference to a range (a key of `model.ranges`)
   | app (f : Nat) (args : List Fx)       -- operator or strict function: all arguments are evaluated
   | iff (c t e : Fx)                     -- IF: only the selected branch is evaluated
-  | sc (isAnd : Bool) (args : List Fx)   -- AND / OR: left to right, stops at the deciding argument
+  | sc (isAnd : Bool) (args : List Fx)   -- AND / OR: left to right, each evaluated argument (scalar or range)
+                                         -- is flattened; stops at the deciding argument
   | fail (reprLen : Nat) (args : List Fx) -- a call of an unknown function: `namespace[name]` raises KeyError
                                          -- before any argument is evaluated
   deriving Repr, Inhabited
@@ -49,7 +50,8 @@ inductive AppR
 
 structure Sem where
   app : Nat → List V → AppR
-  /-- truth value of a condition: `none` = the value is an Excel error (returned as the result) -/
+  /-- truth value of a condition: `none` = the value is an Excel error (returned as the result).
+      AND / OR apply it to the ITEMS of an argument only (scalars, `argVerdict`); IF to the whole value. -/
   truth : V → Option Bool
 
 structure Cell where
@@ -106,6 +108,95 @@ def isEmptyValue : V → Bool
   | .s (.text []) => true
   | .s .blank => true
   | _ => false
+
+/-! ### the verdict of AND / OR on ONE evaluated argument (`logical.py`, the body of `for logical in logicals:`)
+
+    items = xl.flatten([logical()])
+    for item in items:                       -- (1) error scan over ALL items of this argument
+        if isinstance(item, ExcelError): raise item
+    for item in items:                       -- (2) blanks skipped, the first deciding item stops AND / OR
+        if Blank.is_blank(item): continue
+        if not bool(item): return False      -- AND   (OR: `if bool(item): return True`)
+-/
+
+/-- `xl.flatten([val])`: a scalar is one item, an array (a range argument) contributes its cells row-major -/
+def argItems : V → List S
+  | .s x => [x]
+  | .arr rows => rows.flatten
+
+/-- what one evaluated argument means for AND / OR -/
+inductive Verdict
+  | neutral                 -- go on with the next argument
+  | decided (b : Bool)      -- AND / OR returns `b`; the remaining arguments are not evaluated
+  | error (v : V)           -- an Excel error among the items: it is the result
+  deriving DecidableEq, Repr, Inhabited
+
+/-- loop (1): the leftmost item that is an Excel error (`truth (.s x) = none`) -/
+def firstErrorItem (truth : V → Option Bool) : List S → Option S
+  | [] => none
+  | x :: rest =>
+    match truth (.s x) with
+    | none => some x
+    | some _ => firstErrorItem truth rest
+
+/-- loop (2): blank items are skipped; the truth value of the first item that differs from the neutral
+    element (`isAnd`: TRUE for AND, FALSE for OR) -/
+def firstDeciding (truth : V → Option Bool) (isAnd : Bool) : List S → Option Bool
+  | [] => none
+  | x :: rest =>
+    if isEmptyValue (.s x) then firstDeciding truth isAnd rest else
+    match truth (.s x) with
+    | some b => if b = isAnd then firstDeciding truth isAnd rest else some b
+    | none => firstDeciding truth isAnd rest      -- not reached after loop (1)
+
+def itemsVerdict (truth : V → Option Bool) (isAnd : Bool) (xs : List S) : Verdict :=
+  match firstErrorItem truth xs with
+  | some x => .error (.s x)
+  | none =>
+    match firstDeciding truth isAnd xs with
+    | some b => .decided b
+    | none => .neutral
+
+/-- sanity: on ONE item the verdict is "error, else blank ⇒ neutral, else its truth value against `isAnd`" -/
+theorem itemsVerdict_single (truth : V → Option Bool) (isAnd : Bool) (x : S) :
+    itemsVerdict truth isAnd [x] =
+      (match truth (.s x) with
+       | none => .error (.s x)
+       | some b => if isEmptyValue (.s x) then .neutral else if b = isAnd then .neutral else .decided b) := by
+  unfold itemsVerdict
+  cases h : truth (.s x) with
+  | none => simp [firstErrorItem, h]
+  | some b =>
+    by_cases he : isEmptyValue (.s x) = true
+    · simp [firstErrorItem, firstDeciding, h, he]
+    · by_cases hb : b = isAnd <;> simp [firstErrorItem, firstDeciding, h, he, hb]
+
+/-- the verdict of AND (`isAnd`) / OR on the evaluated argument `v` -/
+def argVerdict (sem : Sem) (isAnd : Bool) (v : V) : Verdict := itemsVerdict sem.truth isAnd (argItems v)
+
+/-- for a scalar argument: an error is the result, a blank is skipped, otherwise the truth value decides -/
+theorem argVerdict_scalar (sem : Sem) (isAnd : Bool) (x : S) :
+    argVerdict sem isAnd (.s x) =
+      (match sem.truth (.s x) with
+       | none => .error (.s x)
+       | some b => if isEmptyValue (.s x) then .neutral else if b = isAnd then .neutral else .decided b) :=
+  itemsVerdict_single sem.truth isAnd x
+
+/-- … which is the whole-value test the model used before arguments were flattened ("blank ⇒ skip, else
+    error ⇒ result, else truth value"), for every semantics in which a blank is not an error -/
+theorem argVerdict_scalar_legacy (sem : Sem) (isAnd : Bool) (x : S)
+    (hblank : isEmptyValue (.s x) = true → sem.truth (.s x) ≠ none) :
+    argVerdict sem isAnd (.s x) =
+      (if isEmptyValue (.s x) then .neutral else
+       match sem.truth (.s x) with
+       | none => .error (.s x)
+       | some b => if b = isAnd then .neutral else .decided b) := by
+  rw [argVerdict_scalar]
+  by_cases he : isEmptyValue (.s x) = true
+  · cases h : sem.truth (.s x) with
+    | none => exact absurd h (hblank he)
+    | some b => simp [he]
+  · cases h : sem.truth (.s x) <;> simp [he]
 
 /-- how the evaluator reads and writes the model it runs on; `σ` is the threaded state -/
 structure Store (σ : Type) where
@@ -232,16 +323,18 @@ def evalArgs (ce : Ctx σ → Addr → Ctx σ × Res) : Ctx σ → List Fx → C
         | (c'', .error e) => (c'', .error e))
      | (c', e) => (c', .error e))
 
-/-- AND / OR: blanks are skipped, an error is the result, the first deciding value stops -/
+/-- AND / OR: the arguments are evaluated left to right; each evaluated argument is flattened and judged
+    (`argVerdict`: an error item anywhere in it is the result; blanks are skipped; the first deciding item
+    stops AND / OR) — the arguments after a deciding / erroneous one are NOT evaluated -/
 def evalSc (ce : Ctx σ → Addr → Ctx σ × Res) : Ctx σ → Bool → List Fx → Ctx σ × Res
   | c, isAnd, [] => (c, .val (.s (.bool isAnd)))
   | c, isAnd, a :: rest =>
     (match evalFx ce c a with
      | (c', .val v) =>
-       if isEmptyValue v then evalSc ce c' isAnd rest else
-       (match sem.truth v with
-        | none => (c', .val v)
-        | some b => if b = isAnd then evalSc ce c' isAnd rest else (c', .val (.s (.bool b))))
+       (match argVerdict sem isAnd v with
+        | .neutral => evalSc ce c' isAnd rest
+        | .decided b => (c', .val (.s (.bool b)))
+        | .error e => (c', .val e))
      | r => r)
 end
 
